@@ -35,6 +35,37 @@ def many_chunks():
     return cases
 
 
+def boundaries():
+    """Sizes and counts at the boundaries of one, two and four byte fields: string / opaque / array element sizes around 255 and 65535,
+    element counts around 2^15 and 2^16, chunk extents and chunk counts around 255/256, data of more than 64 KiB and of exactly
+    2^16 bytes, extents of 1 in every position of a rank-4 shape."""
+    cases = []
+
+    def add(dt, dims, chunk=None, data="rnd", sb=None):
+        op = {"op": "mkds", "p": "/d", "dt": dt, "dims": dims}
+        if chunk:
+            op["chunk"] = chunk
+        for v in ((0, 2, 3) if sb is None else (sb,)):
+            cases.append({"cfg": {"sb": v, "rb": "", "style": 0, "tag": "C01-boundaries"}, "ops": [op, {"op": "write", "p": "/d", "data": data}]})
+    for n in (254, 255, 256, 257, 65535, 65536):
+        add("str%d" % n, [3])
+        add("str%d" % n, [3], [2])
+        add("opq%d" % n, [2])
+    for n in (63, 64, 255, 256):
+        add("arr%d" % n, [3], sb=2)
+        add("arr%d" % n, [3], [2], sb=2)
+    for n in (32767, 32768, 65535, 65536, 65537):
+        add("u8", [n], sb=2)
+        add("u8", [n], [4096], sb=0)
+        add("i16", [n], [n], sb=3)
+        add("f64", [n // 8 + 1], [255], sb=2)
+    for dims, chunk in (([256, 256], [255, 1]), ([255, 257], [256, 256]), ([1, 300], [1, 255]), ([300, 1], [256, 1]),
+                        ([1, 1, 1, 70000], [1, 1, 1, 65536]), ([2, 1, 3, 1], [1, 1, 2, 1]), ([1, 7, 1, 1], None)):
+        add("u8", dims, chunk, sb=2)
+        add("i32", dims, chunk, data="ext", sb=0)
+    return cases
+
+
 def run(ctx):
     thorough = ctx.tier == "thorough"
     models = [("C01Model.tla", "C01_thorough.cfg" if thorough else "C01_quick.cfg")]
@@ -47,7 +78,7 @@ def run(ctx):
         raise H.Infra("ChunkGeomLemmas: the wrong cover lemma is not refuted - the proof is vacuous")
     return run_logical(
         ctx, LEVEL, models,
-        extra_cases=many_chunks() + random_big(ctx, 6000 if thorough else 800),
+        extra_cases=many_chunks() + random_big(ctx, 6000 if thorough else 800) + boundaries(),
         stored_bytes_of=lambda c: c["ops"][0].get("dt") in ("arr3", "enumn", "opq4", "cmp"),
         nontrivial=lambda c: len(c["ops"][0].get("chunk") or []) > 0 or len(c["ops"][0]["dims"]) > 1 or c["ops"][0]["dims"][0] > 1,
         extra_cov={"unbounded_design_proof": {"tool": "apalache", "module": "spec/proofs/ChunkGeomLemmas.tla",
